@@ -166,6 +166,37 @@ fn rev_oracle(c: &Case) -> Verdict {
     let x = ns_to_s(c.off);
     let fe = if s == S_ET { lib!(Epoch::from_et_seconds(x)) } else { lib!(Epoch::from_tdb_seconds(x)) };
     ensure!(fe.time_scale == SCALES[s] && count(fe.duration) == f64_trunc_i128(x * 1e9), "from_et/tdb_seconds({:e}) has count {} in {:?}, want {}", x, count(fe.duration), fe.time_scale, f64_trunc_i128(x * 1e9));
+    // into the other dynamical scale and into every uniform scale: the same instant (the model's TAI reading of the
+    // source, re-expressed), each conversion within the statement's 30 ns -> 60 ns for the two legs ET <-> TDB
+    let tai_m = dyn_to_tai(s, c.off);
+    let other = if s == S_ET { S_TDB } else { S_ET };
+    let ro = lib!(e.to_time_scale(SCALES[other]));
+    ensure!(ro.time_scale == SCALES[other], "to_time_scale({}) of an {} epoch returns {:?}", SCALE_NAMES[other], SCALE_NAMES[s], ro.time_scale);
+    let want_o = tai_to_dyn(other, tai_m);
+    ensure!(
+        (count(ro.duration) - want_o).abs() <= 60,
+        "{} count {} -> {}: got count {}, the closed forms give {} (difference {} ns > 60)",
+        SCALE_NAMES[s], c.off, SCALE_NAMES[other], count(ro.duration), want_o, count(ro.duration) - want_o
+    );
+    for u in UNIFORM {
+        let conv = lib!(e.to_time_scale(SCALES[u]));
+        let want_u = tai_m - zero_tai_ns(u);
+        ensure!(
+            conv.time_scale == SCALES[u] && (count(conv.duration) - want_u).abs() <= 30,
+            "{} count {} -> {}: got count {} in {:?}, the closed form gives {} (difference {} ns > 30)",
+            SCALE_NAMES[s], c.off, SCALE_NAMES[u], count(conv.duration), conv.time_scale, want_u, count(conv.duration) - want_u
+        );
+    }
+    // the text form "SEC x ET" / "SEC x TDB" (x seconds past J2000 in the scale itself): if accepted, the same epoch as
+    // the float-second constructor
+    let txt = format!("SEC {} {}", x, SCALE_NAMES[s]);
+    if let Ok(pe) = lib!(<Epoch as std::str::FromStr>::from_str(&txt)) {
+        ensure!(
+            pe.time_scale == SCALES[s] && pe.duration.to_parts() == fe.duration.to_parts(),
+            "{:?} parses to count {} in {:?}, want count {} in {} ({} counts from J2000 in the scale itself)",
+            txt, count(pe.duration), pe.time_scale, count(fe.duration), SCALE_NAMES[s], SCALE_NAMES[s]
+        );
+    }
     Verdict::Pass("reverse", true)
 }
 
